@@ -632,6 +632,54 @@ func frtSweep() {
 		n, _ := r.Read(b)
 		expect("frt.Printf1/Println", "<%d> 5; line; %s s", string(b[:n]), "<5>line\ns")
 	}
+	// Sprintf1 / Printf1 / Sprintf2 over formats with doubled percent signs and arguments that contain a percent
+	// sign: text before x verb x text after (the formatted text must never be formatted a second time)
+	{
+		capture := func(f func()) string {
+			r, w, _ := os.Pipe()
+			old := os.Stdout
+			os.Stdout = w
+			f()
+			os.Stdout = old
+			w.Close()
+			var sb gostrings.Builder
+			b := make([]byte, 4096)
+			for {
+				n, err := r.Read(b)
+				sb.Write(b[:n])
+				if err != nil || n == 0 {
+					break
+				}
+			}
+			r.Close()
+			return sb.String()
+		}
+		texts := []string{"", "%%", "a", "50%% ", "%%%%", "\n"}
+		type va struct {
+			verb string
+			arg  any
+		}
+		vas := []va{{"%d", 42}, {"%s", "s"}, {"%s", "12%"}, {"%v", "1%%"}, {"%v", true}, {"%s", "%d"}, {"%v", []string{"%"}}}
+		for _, before := range texts {
+			for _, v := range vas {
+				for _, after := range texts {
+					f := before + v.verb + after
+					in := fmt.Sprintf("format %q argument %#v", f, v.arg)
+					want := fmt.Sprintf(f, v.arg)
+					noPanic("frt.Sprintf1", in, func() { expect("frt.Sprintf1", in, frt.Sprintf1(f, v.arg), want) })
+					noPanic("frt.Printf1", in, func() { expect("frt.Printf1", in, capture(func() { frt.Printf1(f, v.arg) }), want) })
+					f2 := f + "|" + v.verb
+					want2 := fmt.Sprintf(f2, v.arg, v.arg)
+					noPanic("frt.Sprintf2", in, func() { expect("frt.Sprintf2", in+" (twice)", frt.Sprintf2(f2, v.arg, v.arg), want2) })
+					rep.Distinct++
+					rep.Nontrivial++
+				}
+			}
+		}
+		for _, t := range []string{"", "a", "50%", "%d", "%%", "a\nb"} {
+			noPanic("frt.Println", t, func() { expect("frt.Println", fmt.Sprintf("%q", t), capture(func() { frt.Println(t) }), t+"\n") })
+		}
+	}
 	// Empty
 	expect("frt.Empty", "int", frt.Empty[int](), 0)
 	expect("frt.Empty", "string", frt.Empty[string](), "")
